@@ -10,7 +10,10 @@ SPEC = {
             "P6, P5, P7 RGB/RGB_ALPHA/GRAYSCALE/GRAYSCALE_ALPHA (maxval 255, 65535 and width-boundary maxvals; colour also "
             "2^32-1, 2^64-1), header whitespace/line-order styles, BMP 24/32-bit BI_RGB and BI_BITFIELDS with all 24 byte-mask "
             "permutations, header sizes 40/52/56/108/124, bottom-up/top-down, gap before pixel data; phosg-saved PPM (all "
-            "channel widths), BMP and PNG (8-bit) decoded by independent Python decoders and loaded back. Fault enumeration: "
+            "channel widths), BMP and PNG (8-bit) decoded by independent Python decoders and loaded back; a sample of the images "
+            "is first routed through every way an Image object can come to hold them (copy/move ctor, copy/move assignment onto "
+            "default-constructed and differently formatted images, raw-data constructors, load, set_channel_width/set_has_alpha) "
+            "and must then save the same bytes / round-trip exactly. Fault enumeration: "
             "every prefix length 0..len-1 of every generated or saved file <= 4096 bytes. "
             "distinct_nontrivial = distinct (operation, container family, channel width/alpha, stream kind, w mod 4) classes.",
     "level_text": "Fault enumeration: the fault model (truncation at any byte) is enumerated completely for every file of the "
@@ -28,20 +31,35 @@ SPEC = {
         "load:p5:cw8:*", "load:p5:cw16:*", "load:p7-gray:cw8:*", "load:p7-gray:cw16:*",
         "load:p7-graya:cw8a:*", "load:p7-graya:cw16a:*",
         "load:bmp24:*:mem:w%4=1", "load:bmp24:*:mem:w%4=2", "load:bmp24:*:mem:w%4=3", "load:bmp24:*:mem:w%4=0",
-        "load:bmp24:*:file:*", "load:bmp32:*", "load:bmp32bf:*",
-        "trunc:p6:*", "trunc:p5:*", "trunc:p7-rgba:*", "trunc:p7-graya:*", "trunc:bmp24:*:mem", "trunc:bmp24:*:file",
+        "load:bmp32:*", "load:bmp32bf:*",
+        "trunc:p6:*", "trunc:p5:*", "trunc:p7-rgba:*", "trunc:p7-graya:*", "trunc:bmp24:*:mem", "trunc:bmp24:file",
         "trunc:bmp32:*", "trunc:bmp32bf:*", "trunc:saved-ppm:*", "trunc:saved-bmp:*",
         "trunc-exc:*",
         "save:png:cw8:*", "save:png:cw8a:*", "save:bmp:cw8:w%4=1", "save:bmp:cw8:w%4=2", "save:bmp:cw8:w%4=3",
         "save:bmp:cw8a:*", "save:ppm:cw8:*", "save:ppm:cw16a:*", "save:ppm:cw32:*", "save:ppm:cw64a:*",
         "roundtrip:saved-ppm:cw64a:*", "roundtrip:saved-ppm:cw16:*", "roundtrip:saved-bmp:cw8:*", "roundtrip:saved-bmp:cw8a:*",
+        # delivery channels: a real pipe for every family, real files through fdopen/fopen/both path constructors
+        "load:p6:pipe", "load:p5:pipe", "load:p7-rgb:pipe", "load:p7-rgba:pipe", "load:p7-gray:pipe", "load:p7-graya:pipe",
+        "load:bmp24:pipe:w%4=0", "load:bmp24:pipe:w%4=1", "load:bmp24:pipe:w%4=2", "load:bmp24:pipe:w%4=3",
+        "load:bmp32:pipe", "load:bmp32bf:pipe", "roundtrip:saved-bmp:pipe:w%4=1", "roundtrip:saved-ppm:pipe",
+        "load:bmp24:file", "load:bmp24:fopen", "load:bmp24:path", "load:bmp24:pathstr", "load:bmp32bf:path",
+        "load:p6:path", "load:p6:pathstr", "load:p5:fopen", "roundtrip:saved-ppm:path", "roundtrip:saved-bmp:pathstr",
+        "trunc:bmp24:pipe", "trunc:bmp32bf:pipe", "trunc:p6:pipe", "trunc:bmp24:path", "trunc:bmp24:pathstr", "trunc:bmp24:fopen",
+        "trunc:saved-bmp:pipe",
+        "save-writer:ppm:FILE*", "save-writer:bmp:const char* filename", "save-writer:png:const std::string& filename",
+        # object histories before saving
+        "history:copy-ctor:cw8", "history:copy-ctor:cw64", "history:copy-assign:cw8", "history:copy-assign:cw16",
+        "history:copy-assign:cw32", "history:copy-assign:cw64", "history:move-ctor:cw16", "history:move-assign:cw8",
+        "history:move-assign:cw32", "history:raw-load:cw8", "history:raw-load:cw64", "history:loaded:cw8", "history:loaded:cw16",
+        "history:convert:cw8", "history:convert:cw16", "history:convert:cw32", "history:convert:cw64",
     ],
     "exhaustive": {"quick": False, "thorough": False},
     "exhaustive_note": "complete: every truncation point of every file <= 4 KiB in the workload; all 24 BI_BITFIELDS byte-mask "
                        "permutations x 3 header sizes x 2 row orders x 2 gaps; all (w,h) in [1,8]^2 and every w in 1..64 for "
                        "each family. Not complete: pixel contents (seeded), the cross product variants x dimensions (rotated).",
     "assumptions": ASSUME_COMMON + [
-        "input streams are fmemopen() buffers and real ftruncate()d files; pipes/sockets are not exercised",
+        "delivery channels: fmemopen() buffers, real ftruncate()d files (fdopen, fopen, path constructors) and real pipes; "
+        "sockets, FIFOs and stdin itself are not exercised",
         "hostile (non-truncation) malformed headers are outside the fault model (e.g. BMP header_size < 4, zero or negative sizes)",
         "16/32/64-bit PPM samples use phosg's host-order convention on both sides; only 8-bit PPM output is checked against the "
         "Netpbm definition; grayscale with maxval > 65535 (outside Netpbm) is executed for memory safety only",
